@@ -22,7 +22,7 @@
 EXTENDS Integers, Sequences, FiniteSets, TLC, Json, Randomization
 CONSTANTS Depth,          \* max. number of non-default production choices per derivation
           Kinds,          \* subset of {"select", "insert", "update", "delete", "ddl"}
-          Sample          \* 0: every derivation within Depth; n > 0: a random subset of n of them (TLC -seed)
+          Sample          \* 0: every derivation within Depth; m > 0: only m randomly chosen productions per dimension (TLC -seed)
 VARIABLE d
 vars == <<d>>
 
@@ -76,13 +76,19 @@ WF(x) == /\ (x.k = "insert" /\ x.c # "none" => x.a \notin {"defaults"})         
 \* constructive enumeration: choose the <= Depth dimensions that leave their default, then one non-default production for each
 ND(qi) == Rng(qi) \ {qi[1], "-"}
 Mk(k, q, asg) == LET v(n) == IF n \in DOMAIN asg THEN asg[n] ELSE q[n][1] IN Rec(k, v(1), v(2), v(3), v(4), v(5))
-Assignments(q, S) == {f \in [S -> UNION {ND(q[n]) : n \in S}] : \A n \in S : f[n] \in ND(q[n])}
+\* with Sample = m > 0 every dimension contributes a random subset of m of its non-default productions (TLC -seed): the derivations
+\* are then all combinations of the sampled productions - used for Depth 3, where the full space is too large
+Sub(qi) == IF Sample = 0 \/ Cardinality(ND(qi)) <= Sample THEN ND(qi) ELSE RandomSubset(Sample, ND(qi))
+RECURSIVE Assignments(_, _)
+Assignments(q, S) == IF S = {} THEN {<<>>}
+                     ELSE LET n == CHOOSE n \in S : TRUE
+                          IN {(n :> v) @@ f : v \in Sub(q[n]), f \in Assignments(q, S \ {n})}
 Derivations(k) == LET q == Dims(k)
                   IN {x \in UNION {{Mk(k, q, f) : f \in Assignments(q, S)} : S \in {S \in SUBSET (1..5) : Cardinality(S) <= Depth}} : WF(x)}
 Default(k) == LET q == Dims(k) IN Rec(k, q[1][1], q[2][1], q[3][1], q[4][1], q[5][1])
 
 All == UNION {Derivations(k) : k \in Kinds}
-Init == /\ d \in (IF Sample = 0 THEN All ELSE RandomSubset(IF Sample < Cardinality(All) THEN Sample ELSE Cardinality(All), All))
+Init == /\ d \in All
         /\ PrintT(ToJson(d))
 Next == UNCHANGED vars
 
@@ -92,6 +98,6 @@ Bounded == Features(d) <= Depth
 \* the all-default derivation of every kind is part of the space and so is every single-production derivation: the bound cuts
 \* nothing below itself (a statement about the constants, checked once)
 ASSUME DefaultFirst == \A k \in Kinds : /\ (WF(Default(k)) => Default(k) \in Derivations(k))
-                                        /\ (Depth >= 1 => \A n \in 1..5 : \A v \in ND(Dims(k)[n]) :
+                                        /\ ((Depth >= 1 /\ Sample = 0) => \A n \in 1..5 : \A v \in ND(Dims(k)[n]) :
                                                 LET x == Mk(k, Dims(k), (n :> v)) IN WF(x) => x \in Derivations(k))
 =============================================================================
